@@ -163,6 +163,15 @@ func mkTagMap(c *canary, p *prng) (tagMap, []encrypt.PointerTag) {
 		t.Pointer = "/deep/a/b"
 		tags = append(tags, t)
 	}
+	if p.chance(1, 3) {
+		// four and five containers down
+		v, t := deepVal()
+		v2, t2 := deepVal()
+		m["d4"] = map[string]interface{}{"a": map[string]interface{}{"b": map[string]interface{}{"c": v, "o": c.prot(),
+			"d": map[string]interface{}{"e": v2, "o": c.prot()}}, "o": c.prot()}}
+		t.Pointer, t2.Pointer = "/d4/a/b/c", "/d4/a/b/d/e"
+		tags = append(tags, t, t2)
+	}
 	if p.chance(1, 4) {
 		v, t := deepVal()
 		pm := map[string]interface{}{"c": v, "o": c.prot()}
